@@ -76,7 +76,7 @@ Print Assumptions C01_prefilter_refuted.
    follows an ellipsis (an executable condition), and for ast/relaxed/signature without condition *)
 Theorem C01_prefilter_partial :
   forall src root p t e e',
-    pwf (p_node p) = true -> wfb root = true -> in_source src root ->
+    wfb root = true -> in_source src root ->
     In t (preorder root) ->
     unnamed_by_kind src (p_node p) t ->
     C01_ellipsis_hyp p = true ->
